@@ -186,10 +186,25 @@ def gen(r, cls):
         how = "valid"
         p = params[int(r.integers(len(params)))]
         q = params[int(r.integers(len(params)))]
-        form = ["name", "dict", "order2_pair", "order2_dict"][r.integers(4)]
+        form = ["name", "dict", "order2_pair", "order2_dict", "order2_true"][r.integers(5)]
         if not valid:
             how = ["unknown_name", "unknown_in_dict", "order2_no_order1", "order2_unknown_param", "pair_no_match", "cross_coeff"][r.integers(6)]
         d.update(kind=kind, p=p, q=q, form=form, how=how)
+        if valid and form == "order2_true":
+            # order2=True ("all second derivatives") on top of a selection / renaming / coefficient map of order1
+            style = ["list", "alias", "coef"][r.integers(3)]
+            if style == "list":
+                sel = [params[i] for i in sorted(r.permutation(len(params))[: int(r.integers(1, len(params) + 1))])]
+                o1 = [[x, [x]] for x in sel]
+            elif style == "alias":
+                sel = [params[i] for i in r.permutation(len(params))[: int(r.integers(1, len(params) + 1))]]
+                o1 = [[f"v{i}", [x]] for i, x in enumerate(sel)]
+            else:
+                o1 = []
+                for i in range(int(r.integers(1, 4))):
+                    ps = [params[j] for j in r.permutation(len(params))[: int(r.integers(1, 3))]]
+                    o1.append([f"v{i}", ps])
+            d.update(style=style, o1=o1)
     elif cls == "sequence":
         how = "valid" if valid else ["no_probe", "non_operator", "nested_bad", "empty"][r.integers(4)]
         d.update(how=how)
@@ -310,7 +325,15 @@ def run_real(d, epg):
                 mk = {"T": lambda **kw: epg.T(30, 10, **kw), "E": lambda **kw: epg.E(5, 100, 10, 0.1, **kw),
                       "P": lambda **kw: epg.P(5, 0.1, **kw), "R": lambda **kw: epg.R(0.1, 0.02, r0=0.02, **kw)}[d["kind"]]
                 p, q, how, form = d["p"], d["q"], d["how"], d["form"]
-                if how == "valid":
+                if how == "valid" and form == "order2_true":
+                    o1 = d["o1"]
+                    arg = {"list": [v for v, _ in o1], "alias": {v: ps[0] for v, ps in o1},
+                           "coef": {v: {x: 1.5 for x in ps} for v, ps in o1}}[d["style"]]
+                    op = mk(order1=arg, order2=True)
+                    d["real_pairs"] = sorted({tuple(sorted(map(str, pair))) for pair in op.order2})
+                    d["class_pairs"] = sorted({tuple(sorted(map(str, pair))) for pair in type(op).PARAMETERS_ORDER2})
+                    kw = None
+                elif how == "valid":
                     kw = {"name": dict(order1=p), "dict": dict(order1={"x": {p: 2.0}}),
                           "order2_pair": dict(order1=True, order2=[(p, q)] if _pair_ok(d["kind"], p, q) else [(p, p)]),
                           "order2_dict": dict(order1={"x": {p: 1.0}, "y": {q: 1.0}}, order2={("x", "y"): {}})}[form]
@@ -326,7 +349,8 @@ def run_real(d, epg):
                     kw = dict(order1={"x": {p: 1.0}}, order2=[("u", "v")])
                 else:  # cross_coeff
                     kw = dict(order1={"x": {p: 1.0}}, order2={("x", "u"): {p: 1.0}})
-                mk(**kw)
+                if kw is not None:
+                    mk(**kw)
             elif cls == "sequence":
                 how = d["how"]
                 seq = {"valid": [epg.T(30, 0), [epg.S(1), [epg.ADC]]], "no_probe": [epg.T(30, 0), epg.S(1)],
